@@ -184,7 +184,13 @@ class Pool:
         x = self.o(c['obj'])
         U = {'unit': 1}
         if op == 'store_bits':
-            x.store_bits(ba_of(c['bits'])); return U
+            ba = ba_of(c['bits'])
+            form = c.get('form')
+            arg = ba if form in (None, 'bitarray') else ba.to01() if form == 'str' else ba.tolist() if form == 'list' else \
+                tuple(ba.tolist()) if form == 'tuple' else TvmBitarray(1023, ba) if form == 'tvm' else \
+                (int(b) for b in ba.tolist()) if form == 'gen' else map(int, ba.to01()) if form == 'map' else \
+                iter(ba.tolist()) if form == 'iter' else __import__('itertools').chain(ba.tolist()[:1], ba.tolist()[1:])
+            x.store_bits(arg); return U
         if op == 'store_bit':
             getattr(x, c.get('via', 'store_bit'))(c['bit'] if c.get('via') != 'store_bool' else bool(c['bit'])); return U
         if op == 'store_uint':
